@@ -3,7 +3,7 @@
 Correspondence: the real TaskManager / core.run_once / core.run driven under a virtual clock
 (bacpypes.task._time replaced) against the Gallina model coq/theories/Sched.v + Deferred.v,
 and the direct, implementation-only predicate (a bookkeeping reference of what is pending)."""
-import itertools, logging
+import itertools, logging, signal
 from fractions import Fraction as F
 from core import Case
 
@@ -162,6 +162,39 @@ class Boom(Exception):
     pass
 
 
+class _Watchdog(BaseException):
+    """raised by SIGALRM inside a library loop that does not return (BaseException: the loops' own
+    `except Exception` must not swallow it)"""
+
+
+class Hang(Exception):
+    pass
+
+
+HANGS = [0]
+LOOP_TIMEOUT = 3.0
+
+
+def _alarm(sig, frm):
+    raise _Watchdog()
+
+
+def guarded_loop(fn):
+    """run one library loop (run_once / run / get_next_task+process_task) under a watchdog"""
+    if HANGS[0] >= 3:
+        raise Hang('implementation loops do not return (3 hangs seen), giving up')
+    old = signal.signal(signal.SIGALRM, _alarm)
+    signal.setitimer(signal.ITIMER_REAL, LOOP_TIMEOUT)
+    try:
+        fn()
+    except _Watchdog:
+        HANGS[0] += 1
+        raise Hang('library loop did not return within %.0f s' % LOOP_TIMEOUT)
+    finally:
+        signal.setitimer(signal.ITIMER_REAL, 0)
+        signal.signal(signal.SIGALRM, old)
+
+
 class _Hook(logging.Handler):
     def __init__(self, trace):
         logging.Handler.__init__(self)
@@ -285,18 +318,20 @@ class Impl:
             if tm.tasks:
                 self.NOW[0] = max(self.NOW[0], sorted(tm.tasks, key=lambda e: e[:2])[0][0])
         elif k == 'poll':
-            task, _ = tm.get_next_task()
-            if task:
-                try:
-                    tm.process_task(task)
-                except Exception:
-                    self.trace.append(('raise',))
+            def poll():
+                task, _ = tm.get_next_task()
+                if task:
+                    try:
+                        tm.process_task(task)
+                    except Exception:
+                        self.trace.append(('raise',))
+            guarded_loop(poll)
         elif k == 'defer': self.submit(o[1])
-        elif k == 'runonce': self.core.run_once()
+        elif k == 'runonce': guarded_loop(self.core.run_once)
         elif k == 'run':
             self.in_run = True
             try:
-                self.core.run(spin=0.0, sigterm=None, sigusr1=None)
+                guarded_loop(lambda: self.core.run(spin=0.0, sigterm=None, sigusr1=None))
             finally:
                 self.in_run = False
         else:
@@ -363,8 +398,13 @@ def tf_tick(t):
 def impl_outcome(cfg, ops, mode):
     """mode: 'int' (clock in whole seconds = ticks), 'tick' (1/3 us ticks), 'slot' (same, shown as slot indices)"""
     im = Impl(cfg, float if mode == 'int' else tf_tick)
-    for o in ops:
-        im.step(o)
+    try:
+        for o in ops:
+            im.step(o)
+    except Hang:
+        if HANGS[0] >= 3:
+            raise
+        return [99], im
     ct = ct_int if mode == 'int' else ct_tick if mode == 'tick' else make_ct_slot(cfg)
     tasks = [(t.isScheduled, t.taskTime) for t in im.tasks]
     return canon_outcome(im.trace, im.heap_sorted(), im.counter_value(), im.NOW[0], tasks, im.pending_ids(), ct,
@@ -659,6 +699,7 @@ def deferred_cases(tier):
 
 
 def cases(rng, tier):
+    HANGS[0] = 0
     out = []
     # (A) exhaustive short histories over 2 one-shot tasks, packed by last letter: every history of
     # length <= 3 (quick: + a sample of length 4) / <= 5 (thorough)
@@ -781,7 +822,13 @@ def check_history(cfg, ops, mode, fails, stats):
     for o in ops:
         k = o[0]
         before = len(im.trace)
-        im.step(o)
+        try:
+            im.step(o)
+        except Hang as h:
+            fail('loop-does-not-return', op=k, why=str(h))
+            if HANGS[0] >= 3:
+                raise
+            return im
         errs = [e for e in im.trace[before:] if e[0] == 'err']
         if k in ('install', 'after', 'reinstall', 'resume') and not errs:
             pending[o[1]] = [im.tasks[o[1]].taskTime, next(rank)]
@@ -816,8 +863,14 @@ def check_history(cfg, ops, mode, fails, stats):
     im.NOW[0] = horizon
     want = {i for i, p in pending.items()}
     before = len(im.trace)
-    for _ in range(len(cfg) + 2):
-        im.step(('runonce',))
+    try:
+        for _ in range(len(cfg) + 2):
+            im.step(('runonce',))
+    except Hang as h:
+        fail('loop-does-not-return', op='flush', why=str(h))
+        if HANGS[0] >= 3:
+            raise
+        return im
     fired = [e[1] for e in im.trace[before:] if e[0] == 'fire']
     raised = absorb('flush')
     stats['evaluations'] += 1
@@ -839,8 +892,11 @@ def check_slots(cfg, ops, fails, stats):
     lastk, ontime = {}, {}
     seen = 0
     for o in ops:
-        now_before = im.NOW[0]
-        im.step(o)
+        try:
+            im.step(o)
+        except Hang as h:
+            fails.append(dict(desc, kind='loop-does-not-return', op=o[0], why=str(h)))
+            return
         for e in im.trace[seen:]:
             if e[0] != 'fire' or cfg[e[1]][0][0] != 'rec':
                 continue
@@ -876,10 +932,25 @@ def check_slots(cfg, ops, fails, stats):
 
 
 def direct(rng, tier, focus=()):
-    import ast
+    HANGS[0] = 0
     fails = []
     stats = {'evaluations': 0, 'nontrivial': set()}
     samples = []
+    try:
+        _direct(rng, tier, focus, fails, stats, samples)
+    except Hang:
+        pass                                  # recorded by check_history; no point in waiting 3 s thousands of times
+    # shortest first, so that the replay written is the smallest
+    fails.sort(key=lambda f: len(f.get('ops', '')))
+    return fails, {'evaluations': stats['evaluations'], 'distinct_nontrivial': len(stats['nontrivial']),
+                   'exhaustive': True,
+                   'exhaustive_domain': 'all op sequences of length <= 3 over the 15-letter alphabet on 2 one-shot tasks; every raising '
+                                        'subset of flat deferred batches of <= 6 and of all forests of <= 4 functions',
+                   'samples': samples}
+
+
+def _direct(rng, tier, focus, fails, stats, samples):
+    import ast
     big = tier == 'thorough'
     # 1. the probe of DESIGN.md: [bad, good1, good2]
     probe_cfg, probe_ops = [], [('defer', (0, True, ())), ('defer', (1, False, ())), ('defer', (2, False, ())), ('runonce',)]
@@ -924,19 +995,14 @@ def direct(rng, tier, focus=()):
         if isinstance(d, dict) and 'ops' in d:
             try:
                 check_history(ast.literal_eval(d['cfg']), ast.literal_eval(d['ops']), d.get('mode', 'int'), fails, stats)
+            except Hang:
+                raise
             except Exception as e:
                 fails.append({'kind': 'direct-crash-on-focus', 'exc': repr(e)[:200], 'cfg': d['cfg'], 'ops': d['ops']})
         elif isinstance(d, dict) and 'prefix' in d:
             cfg = ast.literal_eval(d['cfg'])
             for o in alphabet(len(cfg)):
                 check_history(cfg, list(ast.literal_eval(d['prefix'])) + [o] + FLUSH, 'int', fails, stats)
-    # shortest first, so that the replay written is the smallest
-    fails.sort(key=lambda f: len(f.get('ops', '')))
-    return fails, {'evaluations': stats['evaluations'], 'distinct_nontrivial': len(stats['nontrivial']),
-                   'exhaustive': True,
-                   'exhaustive_domain': 'all op sequences of length <= 3 over the 15-letter alphabet on 2 one-shot tasks; every raising '
-                                        'subset of flat deferred batches of <= 6 and of all forests of <= 4 functions',
-                   'samples': samples}
 
 
 def classify(failure):
